@@ -203,6 +203,7 @@ def gen_value_arms(man):
             if len(parts) >= 2:
                 seed = int_lit(norm(obj, *parts[0]))
                 cl = norm(obj, parts[1][0], fe)      # the closure `|a, b| …` (its parameter list holds a comma)
+                cl = cl.replace(":u64", "")             # `|a: u64, b: u64| …`
                 if cl == "|a,b|a^b":
                     fold_add = False
                 elif cl in ("|a,b|a.wrapping_add(b)", "|a,b|a+b"):
